@@ -246,6 +246,12 @@ func (d *decoder) decode() (Item, error) {
 		//  * scientific notation, like 2.8e+22
 		//  * integers with fp notation, like 123.000
 		//  * numbers requiring more than 53 bits of mantissa
+		// Numbers that can't be VM integers are refused before any conversion
+		// whose cost depends on the value of the exponent: |x| >= 2^256 and
+		// non-zero |x| < 1.
+		if exp := f.MantExp(nil); exp > MaxBigIntegerSizeBits || (f.Sign() != 0 && exp <= 0) {
+			return nil, fmt.Errorf("%w (integer)", ErrInvalidValue)
+		}
 		if d.bestIntPrecision {
 			f, _, err = big.ParseFloat(f.Text('e', -1), 10, MaxIntegerPrec, big.ToNearestEven)
 			if err != nil {
@@ -257,7 +263,10 @@ func (d *decoder) decode() (Item, error) {
 		if acc != big.Exact {
 			return nil, fmt.Errorf("%w (integer)", ErrInvalidValue)
 		}
-		return NewBigInteger(num), nil
+		if err := CheckIntegerSize(num); err != nil {
+			return nil, fmt.Errorf("%w (integer): %w", ErrInvalidValue, err)
+		}
+		return (*BigInteger)(num), nil
 	case bool:
 		return NewBool(t), nil
 	default:
@@ -476,7 +485,10 @@ func FromJSONWithTypes(data []byte) (Item, error) {
 		if !ok {
 			return nil, mkErrValue(errors.New("not an integer"))
 		}
-		return NewBigInteger(val), nil
+		if err := CheckIntegerSize(val); err != nil {
+			return nil, mkErrValue(err)
+		}
+		return (*BigInteger)(val), nil
 	case ByteArrayT, BufferT:
 		var s string
 		if err := json.Unmarshal(raw.Value, &s); err != nil {
